@@ -50,7 +50,11 @@ func (p Precompile) ValidatorDistributionInfo(
 
 	querier := distributionkeeper.Querier{Keeper: p.distributionKeeper}
 
-	res, err := querier.ValidatorDistributionInfo(ctx, req)
+	// the SDK query handler advances the validator's reward period, which writes to the
+	// distribution store: run it on a branched context that is discarded, so that this view
+	// method leaves the state untouched (gas is still metered on the shared gas meter)
+	queryCtx, _ := ctx.CacheContext()
+	res, err := querier.ValidatorDistributionInfo(queryCtx, req)
 	if err != nil {
 		return nil, err
 	}
@@ -141,7 +145,11 @@ func (p Precompile) DelegationRewards(
 	}
 
 	querier := distributionkeeper.Querier{Keeper: p.distributionKeeper}
-	res, err := querier.DelegationRewards(ctx, req)
+	// the SDK query handler advances the validator's reward period, which writes to the
+	// distribution store: run it on a branched context that is discarded, so that this view
+	// method leaves the state untouched (gas is still metered on the shared gas meter)
+	queryCtx, _ := ctx.CacheContext()
+	res, err := querier.DelegationRewards(queryCtx, req)
 	if err != nil {
 		return nil, err
 	}
@@ -163,7 +171,11 @@ func (p Precompile) DelegationTotalRewards(
 
 	querier := distributionkeeper.Querier{Keeper: p.distributionKeeper}
 
-	res, err := querier.DelegationTotalRewards(ctx, req)
+	// the SDK query handler advances the validator's reward period, which writes to the
+	// distribution store: run it on a branched context that is discarded, so that this view
+	// method leaves the state untouched (gas is still metered on the shared gas meter)
+	queryCtx, _ := ctx.CacheContext()
+	res, err := querier.DelegationTotalRewards(queryCtx, req)
 	if err != nil {
 		return nil, err
 	}
